@@ -9,15 +9,18 @@ DRIVER = "drv_cache"
 HARNESS_BIN = "cache"
 HARNESS_FEATURES = ""
 PARTIAL = [
-    "wide_refines_map_concurrent_partial: NOT proved. The full statement with any number of foreground tasks is refuted for the code as it "
-    "is (theorem wide_refines_map_concurrent_fails = finding F9, reproduced on the real code with two threads on every run); the statement "
-    "under the hypothesis 'no write to k between a task's probe-miss of k and its insert-if-vacant, writes to a key issued in batch-epoch order' "
-    "is kept as `def C09_concurrent_statement : Prop` and is not proved (random walks of the model, 60k schedules with 2-3 tasks, found no "
-    "counterexample under the hypothesis and do find F9 without it; that is a test, not a proof)",
-    "set cache: foreground operations are atomic steps of the model (background commit / notify / evictions are placed between them, as in the "
-    "property's quantifier); interleavings inside a set operation and concurrent foreground tasks on the set cache are not covered",
+    "no theorem for the key-of-set cache with CONCURRENT foreground tasks: set_refines_map covers one foreground task whose operations are atomic steps "
+    "(background commit / notify / evictions between them, as in the property's quantifier); the generation check that /repo 73760b5 added to the set "
+    "cache's fetch (repair of F50) is not modelled; concurrency on the set cache is covered only by the two-thread scenario (reader fetch vs insert/remove) "
+    "that runs on every check",
+    "wide_refines_map_concurrent (any number of tasks, arbitrary interleaving) holds under the schedule assumption `ordered` (see ASSUMPTIONS); "
+    "`ordered_is_needed` shows the assumption cannot be dropped",
 ]
 HISTORICAL = [
+    "wide cache: finding F9 (stale fill under concurrency) was found by this check and fixed in /repo 5fe68af; the model of the code as it is is WideCacheR "
+    "with fix = true (the driver runs it); wide_refines_map_concurrent_fails / wide_concurrent_unrepaired_fails are decide-witnesses of the fixed defect",
+    "set cache: finding F50 (a fetch cached a set built from a staging snapshot older than a concurrent write) was found by this check and fixed in /repo "
+    "73760b5; set_concurrent_get_insert_fails is the witness on the pre-fix split of get",
     "set_refines_map is a statement about the code as it is: findings F10 (get_snapshot cancelled staged operations in heap order) and F17 "
     "(Spilled iterator ended early) were found by this check and fixed in /repo (d9a4d81, b91d22f); the model's switches fixSnap/fixSpill are "
     "kept, `repaired` (both on) is what the correspondence runs, `asIs` (both off) is the code before the fixes",
@@ -27,6 +30,11 @@ HISTORICAL = [
 ASSUMPTIONS = [
     "a pinned entry is not evicted (TinyLFU asks `is_pinned` again under the entry lock) — imported from C16; the model's `evict` is enabled exactly when pin <= 0 "
     "and otherwise unconstrained (any capacity >= 1, any admission decision)",
+    "concurrent theorem: `ordered` – a write of a key reaches the cache only from a batch whose epoch exceeds that of every other uncommitted batch that "
+    "already wrote the key. This is a USAGE CONSTRAINT of the write-behind design (the store applies batches in epoch order whatever the order of the "
+    "writes), not verified for the engine here: what was read in the engine is that every query computation opens its own batch (slow_path.rs), a query's own "
+    "node is written under its per-query computing lock, and the input session creates its batch after taking the exclusive phase lock (sync.rs); whether "
+    "two overlapping computations can write one wide-column key (e.g. a DirtySetColumn edge) in anti-epoch order was not examined",
     "one foreground task has at most one open write batch at a time, so batch epochs of its writes are non-decreasing in issue order "
     "(with two open batches a write recorded in the lower-epoch batch after a write in the higher-epoch one loses in the store although it wins in the cache; "
     "this usage is outside the theorems and outside the generator)",
@@ -156,9 +164,10 @@ def run(ctx, boost=1):
                 f["sig"] = f"corpus/{fn}:{f['sig']}"
                 f["desc"] = f"replay corpus/{fn} of a fixed finding fails again: " + f["desc"]
                 res.oracle_failures.append(f)
-    # 4. two real threads: the stale fill (F9)
+    # 4. two real threads: fill vs write+commit+un-pin+evict (F9, fixed), fill vs pinned write, set fetch vs insert/remove (F50, fixed):
+    #    all must run clean; a stale read is a violation
     d = os.path.join(ctx.work, "conc")
-    rc, log = vlib.sh([binp, "--stale-fill", "--fill-vs-write", "--n", "0", "--out", d], timeout=600)
+    rc, log = vlib.sh([binp, "--stale-fill", "--fill-vs-write", "--set-fill-vs-insert", "--n", "0", "--out", d], timeout=600)
     if rc == 0:
         rep = json.load(open(os.path.join(d, "report.json")))
         res.oracle_failures += rep["oracle_failures"]
